@@ -35,6 +35,7 @@ func main() {
 			fmt.Println("load:", err)
 			os.Exit(2)
 		}
+		harnessThorough = envOr("GOVC_TIER", "quick") == "thorough"
 		for _, r := range refOrders {
 			if len(os.Args) > 2 && r.prop == os.Args[2] {
 				out, _ := runOverlayTest(w, w.byShort[r.pkg], r.source(), 240*time.Second)
@@ -125,6 +126,7 @@ func devCmd(args []string) {
 	fmt.Printf("loaded in %.1fs, %d functions, %d contracts\n", time.Since(start).Seconds(), len(w.allFuncs), len(w.contracts))
 	vcs := w.propVCs(prop, *safe)
 	if d := propDrivers[prop]; d != nil && d.extra != nil {
+		harnessThorough = devTier == "thorough"
 		vcs = append(vcs, d.extra(w, devTier)...)
 	}
 	var sel []VC
